@@ -188,7 +188,7 @@ class Interp:
         self.param_dims: dict[str, str] = {}
         self.objects: dict[int, SVar] = {}
         self._decided: dict = {}
-        self.concrete_enums = False
+        self.concrete_enums = True
         self._gen_stack: list = []
         self.cur_node = None
         self.steps = 0
@@ -741,6 +741,8 @@ class Interp:
                 n = self.call_function(ln, [], {}, bound=v)
                 if isinstance(n, int):
                     return [self.call_function(gi, [i], {}, bound=v) for i in range(n)]
+            if self.is_namedtuple(v.cls):
+                return self.namedtuple_items(v, node)
         raise AnalysisError(f'iteration over a non-concrete value {v!r} at {self.where(node)}')
 
     def mutate(self, obj, node, how: str):
@@ -926,9 +928,30 @@ class Interp:
         except AttributeError:
             raise AnalysisError(f'attribute {attr} of {type(obj).__name__} at {self.where(node)}') from None
 
-    @staticmethod
-    def is_enum(ci: ClassInfo) -> bool:
-        return any(b.split('.')[-1] in ('Enum', 'IntEnum', 'StrEnum') for b in ci.bases)
+    def base_names(self, ci: ClassInfo) -> list[str]:
+        """Last components of the base classes, with import aliases of the defining module resolved."""
+        out = []
+        try:
+            imports = self.repo.module(ci.module).imports
+        except Exception:  # noqa: BLE001
+            imports = {}
+        for b in ci.bases:
+            b = b.split('[')[0]
+            imp = imports.get(b)
+            if imp is not None and imp[0] in ('ext', 'attr'):
+                b = imp[-1] if imp[0] == 'attr' else imp[1]
+            out.append(b.split('.')[-1])
+        return out
+
+    def is_namedtuple(self, ci: ClassInfo) -> bool:
+        return 'NamedTuple' in self.base_names(ci)
+
+    def namedtuple_items(self, obj: SObj, node) -> list:
+        """The fields of a typing.NamedTuple instance in declaration order."""
+        return [self.getattr(obj, name, node) for name, _ in obj.cls.dataclass_fields()]
+
+    def is_enum(self, ci: ClassInfo) -> bool:
+        return any(b in ('Enum', 'IntEnum', 'StrEnum', 'Flag', 'IntFlag') for b in self.base_names(ci))
 
     def enum_members(self, ci: ClassInfo) -> dict:
         key = (ci.module, ci.name)
@@ -938,7 +961,16 @@ class Interp:
             for st in ci.node.body:
                 if isinstance(st, ast.Assign) and len(st.targets) == 1 and isinstance(st.targets[0], ast.Name) \
                         and not st.targets[0].id.startswith('_'):
-                    out[st.targets[0].id] = EnumMember(ci, st.targets[0].id, self.eval(st.value, {}, cmi))
+                    val = st.value
+                    fname = ast.unparse(val.func) if isinstance(val, ast.Call) else ''
+                    imp = cmi.imports.get(fname.split('.')[0])
+                    if imp is not None and imp[0] == 'ext':
+                        fname = '.'.join([imp[1], *fname.split('.')[1:]])
+                    if isinstance(val, ast.Call) and not val.args and fname in ('enum.auto', 'auto'):
+                        value = len(out) + 1  # enum.auto(): 1, 2, ... for plain Enum classes
+                    else:
+                        value = self.eval(val, {}, cmi)
+                    out[st.targets[0].id] = EnumMember(ci, st.targets[0].id, value)
             self._enum_cache[key] = out
         return self._enum_cache[key]
 
@@ -1026,6 +1058,8 @@ class Interp:
         if isinstance(fn, _PyBound):
             if any(isinstance(a, Opaque) for a in args):
                 return Opaque(f'{fn.name}(⊤)')
+            if isinstance(fn.obj, str | bytes) and any(isinstance(a, list | tuple) and any(isinstance(x, Opaque | SVar | SObj) for x in a) for a in args):
+                return Opaque(f'{fn.name}(sequence with ⊤)')  # e.g. ', '.join of formatted abstract values
             try:
                 return fn.fn(*args, **kwargs)
             except (RaiseSignal, ReturnSignal, AnalysisError, PassThrough):
@@ -1284,6 +1318,11 @@ class Interp:
             gi = self.find_method(obj.cls, '__getitem__')
             if gi is not None:
                 return self.call_function(gi, [key], {}, bound=obj)
+            if self.is_namedtuple(obj.cls) and isinstance(key, int | slice):
+                try:
+                    return self.namedtuple_items(obj, node)[key]
+                except IndexError:
+                    raise RaiseSignal('IndexError', node, self.where(node), ('tuple index out of range',)) from None
         if isinstance(key, Opaque | SVar):
             return Opaque('⊤ index')
         if obj is None:
@@ -1331,13 +1370,17 @@ class Interp:
     def ex_Starred(self, e, env, mi):
         raise AnalysisError(f'starred expression at {self.where(e)}')
 
-    def _comp(self, gens, env, mi, emit):
+    _NOT_EVALUATED = object()
+
+    def _comp(self, gens, env, mi, emit, first=_NOT_EVALUATED):
         def rec(i, env):
             if i == len(gens):
                 emit(env)
                 return
             g = gens[i]
-            itv = self.eval(g.iter, env, mi)
+            # the first iterable may have been evaluated by the caller already: never evaluate it twice
+            # (it may be a file or an iterator that is consumed by the evaluation)
+            itv = first if i == 0 and first is not Interp._NOT_EVALUATED else self.eval(g.iter, env, mi)
             if isinstance(itv, Opaque):
                 raise _OpaqueElts()
             for v in self.iterate(itv, g.iter):
@@ -1347,31 +1390,27 @@ class Interp:
                     rec(i + 1, sub)
         rec(0, dict(env))
 
-    def _opaque_comp(self, e, env, mi):
-        try:
-            it = self.eval(e.generators[0].iter, env, mi)
-        except AnalysisError:
-            return None
-        if isinstance(it, Opaque):
-            return Opaque('comprehension over ⊤')
-        return None
+    def _first_iter(self, e, env, mi):
+        """The first iterable of a comprehension, evaluated exactly once."""
+        return self.eval(e.generators[0].iter, env, mi)
 
-    def ex_ListComp(self, e, env, mi):
-        op = self._opaque_comp(e, env, mi)
-        if op is not None:
-            return op
+    def ex_ListComp(self, e, env, mi, first=_NOT_EVALUATED):
+        if first is Interp._NOT_EVALUATED:
+            first = self._first_iter(e, env, mi)
+        if isinstance(first, Opaque):
+            return Opaque('comprehension over ⊤')
         out = []
         try:
-            self._comp(e.generators, env, mi, lambda en: out.append(self.eval(e.elt, en, mi)))
+            self._comp(e.generators, env, mi, lambda en: out.append(self.eval(e.elt, en, mi)), first)
         except _OpaqueElts:
             return Opaque('comprehension over ⊤')
         return out
 
     def ex_GeneratorExp(self, e, env, mi):
         # a generator over a long concrete range stays lazy (id generators and the like)
+        itv = self._first_iter(e, env, mi)
         if len(e.generators) == 1 and not e.generators[0].ifs:
             g = e.generators[0]
-            itv = self.eval(g.iter, env, mi)
             if isinstance(itv, range) and len(itv) > 10000:
                 def lazy():
                     for v in itv:
@@ -1379,27 +1418,28 @@ class Interp:
                         self.assign(g.target, v, sub, mi)
                         yield self.eval(e.elt, sub, mi)
                 return lazy()
-        return self.ex_ListComp(e, env, mi)
+        r = self.ex_ListComp(e, env, mi, itv)
+        return GenResult(r) if isinstance(r, list) else r  # an iterator (eagerly evaluated): next() consumes it
 
     def ex_SetComp(self, e, env, mi):
-        op = self._opaque_comp(e, env, mi)
-        if op is not None:
-            return op
+        first = self._first_iter(e, env, mi)
+        if isinstance(first, Opaque):
+            return Opaque('comprehension over ⊤')
         out = set()
         try:
-            self._comp(e.generators, env, mi, lambda en: out.add(self.eval(e.elt, en, mi)))
+            self._comp(e.generators, env, mi, lambda en: out.add(self.eval(e.elt, en, mi)), first)
         except _OpaqueElts:
             return Opaque('comprehension over ⊤')
         return out
 
     def ex_DictComp(self, e, env, mi):
-        op = self._opaque_comp(e, env, mi)
-        if op is not None:
-            return op
+        first = self._first_iter(e, env, mi)
+        if isinstance(first, Opaque):
+            return Opaque('comprehension over ⊤')
         out = {}
         try:
             self._comp(e.generators, env, mi,
-                       lambda en: out.__setitem__(self.eval(e.key, en, mi), self.eval(e.value, en, mi)))
+                       lambda en: out.__setitem__(self.eval(e.key, en, mi), self.eval(e.value, en, mi)), first)
         except _OpaqueElts:
             return Opaque('comprehension over ⊤')
         return out
